@@ -157,6 +157,12 @@ def greeting_rules(rep, prog, cfg):
         if b is None:
             rep.fail("C18.anchor", "%s/%s" % (cfg, name), "connection.rs", "connect body not found")
             continue
+        if not any(st["k"] == "assign" and st["rv"]["k"] == "agg" and norm(st["rv"].get("adt_name", "")) == "mpd_protocol::connection::Connection"
+                   for _, _, st in b.stmts()):
+            # the connection value may be built by a private constructor (`Connection::greeted(io, version, buf)`): spliced in (A12)
+            from ..inline import inlined, module_private_helpers
+            base_want = module_private_helpers(b)
+            b = inlined(prog, b, lambda cb: base_want(cb) and "connection::Connection<" in cb.local_ty(0), depth=1)
         fl = Flow(b)
         g = Cfg(b)
         gcalls = [bb for bb, t in b.calls() if GREETING in callee_names(t)]
